@@ -111,7 +111,7 @@ fn all_strings(alphabet: &[&str], maxlen: usize, f: &mut dyn FnMut(&str)) {
 }
 
 pub fn main(ctx: &Ctx) -> i32 {
-    ctx.set_rule("exhaustive: all interface names over {a,B,1,-,.} up to length 7; all field names / enum elements over {a,B,1,_} up to length 6 and member / type names over {A,b,1,_} up to length 5, in four positions each; all type expressions of up to 5 (quick) / 6 (thorough) tokens over {?, [], [string], int, T, (a:int), (a,b), ()}; all 9 ordered member-kind pairs x {same, different name} x 3 positions; generated: grammar-directed valid definitions rendered with 3 trivia levels, and single-token delete/insert/swap/substitute/duplicate mutants of them; each text is bracketed by a strict and a liberal hand-written recogniser; distinct = (text, class); non-trivial = accepted text, duplicate text, or a rejected text one edit away from an accepted one");
+    ctx.set_rule("exhaustive: all interface names over {a,B,1,-,.} up to length 7; all field names / enum elements over {a,B,1,_} up to length 6 and member / type names over {A,b,1,_} up to length 5, in four positions each; all type expressions of up to 5 (quick) / 6 (thorough) tokens over {?, [], [string], int, T, (a:int), (a,b), ()}; all 9 ordered member-kind pairs x {same, different name} x 3 positions; a collision with any of 3-4 members of one kind declared in every order x 9 kind pairs x 3 positions; generated: grammar-directed valid definitions rendered with 3 trivia levels, and single-token delete/insert/swap/substitute/duplicate mutants of them; each text is bracketed by a strict and a liberal hand-written recogniser; distinct = (text, class); non-trivial = accepted text, duplicate text, or a rejected text one edit away from an accepted one");
     ctx.assume("the grammar is reproduced from the published varlink rules from memory; interface names follow [A-Za-z]([-]*[A-Za-z0-9])*(\\.[A-Za-z0-9]([-]*[A-Za-z0-9])*)+");
     ctx.assume("pinned (regression only): the whitespace code points and the positions where the implementation's layout allows trivia; texts that only a liberal trivia policy accepts (several members on one line, blank before a comma, blanks before a trailing comment, unterminated final comment, zero members) are skipped_unspecified");
     // 1. interface names, exhaustive
@@ -202,6 +202,44 @@ pub fn main(ctx: &Ctx) -> i32 {
                             // two different duplicated names at once
                             let text2 = format!("interface a.b\n{}\n{}\n{}\n", members.join("\n"), mk(k3, "Zz"), mk(k2, "Qq"));
                             judge(ctx, &text2, "duplicate-matrix-2", true);
+                        }
+                    }
+                }
+            }
+        }
+    }
+    // 3b. a collision among several members of the first kind, declared in every order (what
+    // finds an earlier definition must not depend on the order of declaration)
+    {
+        let mk = |k: MKind, name: &str| match k {
+            MKind::Type => format!("type {} (a: int)", name),
+            MKind::Method => format!("method {}() -> ()", name),
+            MKind::Error => format!("error {} (a: int)", name),
+        };
+        let names = ["Aa", "Cc", "Mm", "Zz"];
+        let mut perms: Vec<Vec<&str>> = Vec::new();
+        for a in 0..4 {
+            for b in 0..4 {
+                for c in 0..4 {
+                    for d in 0..4 {
+                        if a != b && a != c && a != d && b != c && b != d && c != d {
+                            perms.push(vec![names[a], names[b], names[c], names[d]]);
+                        }
+                    }
+                }
+            }
+        }
+        for k1 in [MKind::Type, MKind::Method, MKind::Error] {
+            for k2 in [MKind::Type, MKind::Method, MKind::Error] {
+                for perm in &perms {
+                    for take in [3usize, 4] {
+                        for collide in 0..take {
+                            for pos in [0usize, take / 2, take] {
+                                let mut members: Vec<String> = perm[..take].iter().map(|n| mk(k1, n)).collect();
+                                members.insert(pos, mk(k2, perm[collide]));
+                                let text = format!("interface a.b\n{}\n", members.join("\n"));
+                                judge(ctx, &text, "duplicate-among-several", true);
+                            }
                         }
                     }
                 }
